@@ -344,3 +344,225 @@ Print Assumptions C12_quantile_index_binary64_exact_length.
 Print Assumptions C12_quantile_naive_product_out_of_range.
 Print Assumptions C12_quantile_index_law_binary64.
 Print Assumptions C12_quantile_total_binary64.
+
+(* ==== audit extension (Proofs/Audit12.v, Proofs/Audit12Float.v): the clauses restated at EVERY carrier ========
+   `Num A` is any numeric class instance (binary64 `float`, integers, option R ...), `IsNone T A` any null
+   dictionary (NaN-as-null floats, Option<_>, never-null integer types).  No order law of the carrier and no axiom is
+   used: these are the structural clauses of the property (how many entries, which entries, never a null, which
+   elements the quantile is computed from, which counts the percentile rank divides).  notes/C12.md: the matrix. *)
+From Tevec Require Import Model.NullView Proofs.Audit12 Proofs.Audit12Float.
+Local Open Scope nat_scope.
+
+(* partition: whenever `T::none()` is a null value (tnone = Ok pad), for EVERY kth (kth >= len included), both sort
+   flags, both directions: Ok r with `part_shape`: r = taken ++ nulls, taken non-null elements of the series
+   (a sub-multiset of size min (kth+1) n), nulls null, length r = kth + 1.  When `T::none()` panics (the integer
+   element types): the call panics exactly when padding is needed (`needs_pad`), and is Ok with the same shape otherwise *)
+Theorem C12_partition_any_carrier :
+  forall (A : Type) (NA : Num A) (T : Type) (DT : IsNone T A) (DX : IsNoneX T A)
+         (kth : nat) (sort rev : bool) (xs : list T),
+    match tnone with
+    | Ok pad => is_none pad = true -> exists r, vpartition kth sort rev xs = Ok r /\ part_shape kth xs r
+    | Panic e => if needs_pad kth sort xs then vpartition kth sort rev xs = Panic e
+                 else exists r, vpartition kth sort rev xs = Ok r /\ part_shape kth xs r
+    end.
+Proof. intros A NA T DT DX. exact vpartition_shape. Qed.
+
+(* ... in the words of the property: kth + 1 entries; min (kth+1) n of them non-null; every non-null entry is an
+   element of the series; the non-null entries are a sub-multiset of the non-null elements; nulls come last *)
+Theorem C12_partition_shape_facts :
+  forall (A : Type) (NA : Num A) (T : Type) (DT : IsNone T A) (kth : nat) (xs r : list T),
+    part_shape kth xs r ->
+    length r = kth + 1 /\
+    length (filter not_none r) = Nat.min (kth + 1) (count_valid xs) /\
+    (forall x, In x r -> not_none x = true -> In x xs) /\
+    (exists rest, Permutation (filter not_none xs) (filter not_none r ++ rest)) /\
+    (exists m, all_valid (firstn m r) /\ all_null (skipn m r)).
+Proof. intros A NA T DT. exact part_shape_facts. Qed.
+
+(* arg-partition never panics and ALWAYS has kth + 1 entries: min (kth+1) n distinct positions of NON-NULL elements
+   followed by -1 only *)
+Theorem C12_arg_partition_any_carrier :
+  forall (A : Type) (NA : Num A) (T : Type) (DT : IsNone T A) (kth : nat) (sort rev : bool) (xs : list T),
+    argpart_shape kth xs (varg_partition kth sort rev xs).
+Proof. intros A NA T DT. exact varg_partition_shape. Qed.
+
+Theorem C12_arg_partition_shape_facts :
+  forall (A : Type) (NA : Num A) (T : Type) (DT : IsNone T A) (kth : nat) (xs : list T) (out : list Z),
+    argpart_shape kth xs out ->
+    length out = kth + 1 /\
+    (forall z, In z out -> z = (-1)%Z \/
+       ((0 <= z)%Z /\ exists v, nth_error xs (Z.to_nat z) = Some v /\ not_none v = true)) /\
+    (forall i j z, nth_error out i = Some z -> nth_error out j = Some z -> z <> (-1)%Z -> i = j) /\
+    (exists m, m = Nat.min (kth + 1) (count_valid xs) /\
+               Forall (fun z => (0 <= z)%Z) (firstn m out) /\ skipn m out = repeat (-1)%Z (kth + 1 - count_valid xs)).
+Proof. intros A NA T DT. exact argpart_shape_facts. Qed.
+
+(* quantile: given the carrier's index facts (floor <= ceil < n; proved at option R and at binary64), the result is
+   `qvalue q n m vi vj` of two NON-NULL ELEMENTS vi, vj of the series: vj = (sorted valid)[ceil], vi the extremum of
+   (sorted valid)[0 .. ceil) — lower / higher / the exact-index case return one of them unchanged *)
+Theorem C12_quantile_elements_any_carrier :
+  forall (A : Type) (NA : Num A) (T : Type) (DT : IsNone T A) (NF : NumFloor A)
+         (q : A) (mth : qmethod) (xs : list T),
+    nleb nzero q && nleb q none = true ->
+    let n := count_valid xs in
+    2 <= n -> qi_of q n <= qj_of q n -> qj_of q n < n ->
+    exists vi vj, is_valid_elem xs vi /\ is_valid_elem xs vj /\
+      vquantile q mth xs = Ok (Some (qvalue q n mth vi vj)) /\
+      (let S0 := isort (cmp_dir (qrev q)) (filter not_none xs) in
+       (exists m, nth_error S0 (qj_of q n) = Some m /\ vj = unwrap m) /\
+       (qi_of q n <> qj_of q n -> exists x, In x (firstn (qj_of q n) S0) /\ vi = unwrap x)).
+Proof. intros A NA T DT NF. exact vquantile_elements. Qed.
+
+(* no valid element: null; exactly one: that element, wherever it stands *)
+Theorem C12_quantile_small_any_carrier :
+  forall (A : Type) (NA : Num A) (T : Type) (DT : IsNone T A) (NF : NumFloor A)
+         (q : A) (mth : qmethod) (xs : list T),
+    nleb nzero q && nleb q none = true ->
+    (count_valid xs = 0 -> vquantile q mth xs = Ok (Some nnan)) /\
+    (count_valid xs = 1 -> exists x, In x xs /\ not_none x = true /\ filter not_none xs = [x] /\
+                            vquantile q mth xs = Ok (Some (unwrap x))).
+Proof. intros A NA T DT NF. exact vquantile_small. Qed.
+
+(* percentile of score: L = #{non-null < score}, E = #{non-null, not <, == score}, N = #non-null, in the carrier's
+   own comparisons; the result is the documented proportion of these counts in the carrier's arithmetic *)
+Theorem C12_percentile_of_counts_any_carrier :
+  forall (A : Type) (NA : Num A) (T : Type) (DT : IsNone T A) (score : T) (m : pmethod) (xs : list T),
+    vpercentile_of score m xs =
+    if is_none score then nnan else
+    let sc := unwrap score in
+    let L := cnt_lt sc xs in let E := cnt_eq sc xs in let N := count_valid xs in
+    if N =? 0 then nnan else
+    match m with
+    | PRank => if 1 <? E then ndiv (nmul (nofnat ((L + 1) + (L + 1 + (E - 1)))) nhalf) (nofnat N)
+               else ndiv (nofnat (L + E)) (nofnat N)
+    | PWeak => ndiv (nofnat (L + E)) (nofnat N)
+    | PStrict => ndiv (nofnat L) (nofnat N)
+    end.
+Proof. intros A NA T DT. exact vpercentile_of_counts. Qed.
+
+Theorem C12_rank_length_any_carrier :
+  forall (A : Type) (NA : Num A) (T : Type) (DT : IsNone T A) (DX : IsNoneX T A) (pct rev : bool) (xs : list T),
+    length (vrank pct rev xs) = length xs.
+Proof. intros A NA T DT DX. exact vrank_length_gen. Qed.
+
+(* ---- AT BINARY64 ---------------------------------------------------------------------------------------- *)
+(* the index premises hold (C12_quantile_index_binary64): for every q passing the guard and every series with
+   n >= 2 non-null elements, every null dictionary over f64, the quantile is computed from two non-null ELEMENTS of
+   the series; floor <= ceil < n, ceil - floor <= 1.  Lower / Higher / the exact index return an element bit for bit *)
+Theorem C12_quantile_elements_binary64 :
+  forall (T : Type) (DT : IsNone T float) (q : float) (mth : qmethod) (xs : list T),
+    nleb (A := float) nzero q && nleb q none = true ->
+    let n := count_valid xs in
+    2 <= n ->
+    exists vi vj, is_valid_elem xs vi /\ is_valid_elem xs vj /\
+      vquantile (NF := NumFloorF64) q mth xs = Ok (Some (qvalue (NF := NumFloorF64) q n mth vi vj)) /\
+      (qi_of (NF := NumFloorF64) q n <= qj_of (NF := NumFloorF64) q n < n) /\
+      (qj_of (NF := NumFloorF64) q n - qi_of (NF := NumFloorF64) q n <= 1).
+Proof. intros T DT. exact vquantile_elements_f64. Qed.
+
+(* the linear interpolation r = fl(vi + fl(fl(vj - vi) * fraction)), finite operands, 0 <= fraction <= 1, no overflow:
+   r is finite and lies between vi and E = fl(vi + fl(vj - vi)), on vj's side of vi *)
+Theorem C12_interpolation_binary64_between :
+  forall vi vj fr : float,
+    ffin vi = true -> ffin fr = true -> (0 <= f2r fr <= 1)%R ->
+    ffin (vj - vi)%float = true -> ffin (vi + (vj - vi))%float = true ->
+    let E := f2r (vi + (vj - vi))%float in
+    ffin (interp64 vi vj fr) = true /\
+    ((0 <= f2r (vj - vi)%float)%R -> (f2r vi <= f2r (interp64 vi vj fr) <= E)%R) /\
+    ((f2r (vj - vi)%float <= 0)%R -> (E <= f2r (interp64 vi vj fr) <= f2r vi)%R).
+Proof. exact interp_f64_between. Qed.
+
+(* when the difference vj - vi is exact, r lies between vi and vj (both orientations: the mirrored branch has vj <= vi) *)
+Theorem C12_interpolation_binary64_exact_difference :
+  forall vi vj fr : float,
+    ffin vi = true -> ffin vj = true -> ffin fr = true -> (0 <= f2r fr <= 1)%R ->
+    ffin (vj - vi)%float = true -> f2r (vj - vi)%float = (f2r vj - f2r vi)%R ->
+    ffin (interp64 vi vj fr) = true /\
+    ((f2r vi <= f2r vj)%R -> (f2r vi <= f2r (interp64 vi vj fr) <= f2r vj)%R) /\
+    ((f2r vj <= f2r vi)%R -> (f2r vj <= f2r (interp64 vi vj fr) <= f2r vi)%R).
+Proof. exact interp_f64_in_range_exact_diff. Qed.
+
+(* ... which is the case whenever the two elements are within a factor two of each other (Sterbenz) *)
+Theorem C12_binary64_difference_exact_sterbenz :
+  forall vi vj : float,
+    ffin vi = true -> ffin vj = true -> (f2r vi / 2 <= f2r vj <= 2 * f2r vi)%R ->
+    ffin (vj - vi)%float = true /\ f2r (vj - vi)%float = (f2r vj - f2r vi)%R.
+Proof. exact sterbenz_f64. Qed.
+
+(* and WITHOUT exactness the claim "r in [vi, vj]" is false at fraction = 1 (vi = -1, vj = 2^-53 + 2^-105: r = 2^-52) *)
+Theorem C12_interpolation_binary64_overshoot :
+  exists vi vj fr : float,
+    ffin vi = true /\ ffin vj = true /\ ffin fr = true /\ PrimFloat.leb vi vj = true /\
+    PrimFloat.leb PrimFloat.zero fr = true /\ PrimFloat.leb fr PrimFloat.one = true /\ ffin (vj - vi)%float = true /\
+    PrimFloat.ltb vj (interp64 vi vj fr) = true.
+Proof. exact interp_f64_overshoot. Qed.
+
+(* ... and the overshoot is reachable through vquantile: 50 valid elements {-1, 2^-53 + 2^-105, 1 x 48}, q = fl(1/49)
+   (fl(49 q) = 0.9999999999999999: floor 0, ceil 1, fraction = 1): the linear quantile 2^-52 exceeds the `higher` quantile *)
+Theorem C12_quantile_binary64_linear_above_higher :
+  nleb (A := float) nzero overshoot_q && nleb overshoot_q none = true /\
+  vquantile (NF := NumFloorF64) (DT := IsNoneF64) overshoot_q Linear overshoot_series = Ok (Some 0x1p-52%float) /\
+  vquantile (NF := NumFloorF64) (DT := IsNoneF64) overshoot_q Higher overshoot_series = Ok (Some 0x1.0000000000001p-53%float) /\
+  PrimFloat.ltb 0x1.0000000000001p-53%float 0x1p-52%float = true.
+Proof. exact vquantile_f64_overshoot. Qed.
+
+(* the partition clauses at the dictionaries the correspondence run executes: f64 with NaN as null (T::none() = NaN) *)
+Theorem C12_partition_binary64 :
+  forall (kth : nat) (sort rev : bool) (xs : list float),
+    exists r, vpartition (DT := IsNoneF64) (DX := Run.RunC12.DXf) kth sort rev xs = Ok r /\
+              part_shape (DT := IsNoneF64) kth xs r.
+Proof.
+  intros kth sort rev xs.
+  exact (vpartition_shape (DT := IsNoneF64) (DX := Run.RunC12.DXf) kth sort rev xs eq_refl).
+Qed.
+
+(* ... and the never-null integer dictionary (T::none() panics): a panic exactly when padding is needed *)
+Theorem C12_partition_integer_types :
+  forall (kth : nat) (sort rev : bool) (xs : list float),
+    if needs_pad (DT := Run.RunC12.Dn) kth sort xs
+    then vpartition (DT := Run.RunC12.Dn) (DX := Run.RunC12.DXn) kth sort rev xs = Panic OtherPanic
+    else exists r, vpartition (DT := Run.RunC12.Dn) (DX := Run.RunC12.DXn) kth sort rev xs = Ok r /\
+                   part_shape (DT := Run.RunC12.Dn) kth xs r.
+Proof.
+  intros kth sort rev xs.
+  exact (vpartition_shape (DT := Run.RunC12.Dn) (DX := Run.RunC12.DXn) kth sort rev xs).
+Qed.
+
+(* ---- non-vacuity ---- *)
+Example C12_example_any_carrier_partition :
+  vpartition (DT := IsNoneF64) (DX := Run.RunC12.DXf) 5 true false [3%float; nan; 1%float] 
+  = Ok [1%float; 3%float; nan; nan; nan; nan]
+  /\ varg_partition (DT := IsNoneF64) 5 true false [3%float; nan; 1%float] = [2; 0; -1; -1; -1; -1]%Z
+  /\ vpartition (DT := Run.RunC12.Dn) (DX := Run.RunC12.DXn) 5 false false [3%float; 1%float] = Panic OtherPanic
+  /\ needs_pad (DT := Run.RunC12.Dn) 5 false [3%float; 1%float] = true
+  /\ needs_pad (DT := Run.RunC12.Dn) 1 false [3%float; 1%float] = false.
+Proof. vm_compute. repeat split. Qed.
+
+Example C12_example_quantile_elements_premises :
+  nleb (A := float) nzero 0.25%float && nleb 0.25%float none = true /\
+  count_valid (DT := IsNoneF64) [3%float; nan; 1%float; 2%float] = 3 /\
+  qi_of (NF := NumFloorF64) 0.25%float 3 = 0 /\ qj_of (NF := NumFloorF64) 0.25%float 3 = 1 /\
+  vquantile (NF := NumFloorF64) (DT := IsNoneF64) 0.25%float Linear [3%float; nan; 1%float; 2%float] = Ok (Some 1.5%float).
+Proof. vm_compute. repeat split. Qed.
+
+Example C12_example_interpolation_premises :
+  ffin 1%float = true /\ ffin 0.5%float = true /\ ffin (2 - 1)%float = true /\ ffin (1 + (2 - 1))%float = true /\
+  interp64 1%float 2%float 0.5%float = 1.5%float /\ PrimFloat.leb 1%float 2%float = true.
+Proof. vm_compute. repeat split. Qed.
+
+Print Assumptions C12_partition_any_carrier.
+Print Assumptions C12_partition_shape_facts.
+Print Assumptions C12_arg_partition_any_carrier.
+Print Assumptions C12_arg_partition_shape_facts.
+Print Assumptions C12_quantile_elements_any_carrier.
+Print Assumptions C12_quantile_small_any_carrier.
+Print Assumptions C12_percentile_of_counts_any_carrier.
+Print Assumptions C12_rank_length_any_carrier.
+Print Assumptions C12_quantile_elements_binary64.
+Print Assumptions C12_interpolation_binary64_between.
+Print Assumptions C12_interpolation_binary64_exact_difference.
+Print Assumptions C12_binary64_difference_exact_sterbenz.
+Print Assumptions C12_interpolation_binary64_overshoot.
+Print Assumptions C12_quantile_binary64_linear_above_higher.
+Print Assumptions C12_partition_binary64.
+Print Assumptions C12_partition_integer_types.
